@@ -11,6 +11,8 @@ CLAIM = (
     "_smoke_transpile_to_csharp passes through verify_for_types, generate_types and generate_verification before its final return; "
     "every stage result is read before the next stage (ERR1/ERR3); every failing test leads to a write to stderr and `return 1`, "
     "a `return 0` writes nothing to stderr (ERR4); the front-end stage sequence equals the one of run.load_model."
+    " SKIPS: the loops of the functions in scope have no more `continue`, `break` or in-loop `return` statements than the reference "
+    "read on the unchanged tree (baselines/skips.json): a new skip means elements that were handled are no longer handled."
 )
 NOTE = "Trusted base: callee identification by resolved name. Not decided: equality of the report with the recorded expectations under dev/test_data/smoke."
 TECHNIQUE = "static analysis: must-pass-through and ordering on the CFG, exit-code/stream pairing, error-value discipline"
@@ -40,6 +42,13 @@ def run(ctx) -> None:
     for f in (ex, tr):
         err.check_err12(ctx, f, "ERR1", "ERR1v", "ERR2")
         err.check_err3(ctx, f, "ERR3")
+    ctx.rule("SKIPS", "the loops of the functions in scope have no more continue/break/return-in-loop statements than the reference read on the unchanged tree", floor=1)
+    from ..rules import skips as _skips
+    _base = _skips.load_baseline()
+    for _m in ctx.p.modules.values():
+        if _m.name in ("aas_core_codegen.run", "aas_core_codegen.main"):
+            for _f in _m.functions.values():
+                _skips.check_skips(ctx, _f, "SKIPS", _base)
 
 
 def _in_cache_branch(f, node) -> bool:
